@@ -1,6 +1,6 @@
 (* C10 — the value of a reference: theorems about the model of DataReference.resolve and the link
    with the `r_val` used by the model / specification of resolveArguments. *)
-From Coq Require Import String Ascii List Bool Arith Lia.
+From Coq Require Import String Ascii List Bool Arith Lia NArith.
 Import ListNotations.
 Require Import V.Lib.PyStr V.Args.Model V.Args.Proofs V.Args.ValueModel.
 Open Scope string_scope.
@@ -83,18 +83,72 @@ Proof.
   rewrite D. destruct (lookup fs (reference_path r)) as [[c|]|] eqn:L; rewrite ?L; auto.
 Qed.
 
-(* output references to a component without file part: its out.stdout *)
+(* output references to a component without file part: the file path_to_stdout names (none: the
+   producer is repeating and has archived no stream yet - the reference is worth the empty string) *)
 Theorem value_stdout fs r :
   s_method r = "output" -> s_direct r = false -> s_file r = None ->
-  arg_value fs r = match lookup fs (path_join (s_loc r) "out.stdout") with
-                   | Some (File c) => Some (rstrip_nl c)
-                   | Some Dir => None
+  arg_value fs r = match path_to_stdout fs r with
                    | None => Some ""
+                   | Some f => match lookup fs f with
+                               | Some (File c) => Some (rstrip_nl c)
+                               | Some Dir => None
+                               | None => Some ""
+                               end
                    end.
 Proof.
   intros M D F. unfold arg_value, resolve. rewrite M, D, F.
   cbn [is_loop is_output String.eqb Ascii.eqb Bool.eqb orb is_some].
-  destruct (lookup fs (path_join (s_loc r) "out.stdout")) as [[c|]|]; reflexivity.
+  destruct (path_to_stdout fs r) as [f|]; [|reflexivity].
+  destruct (lookup fs f) as [[c|]|]; reflexivity.
+Qed.
+
+(* a producer that does not repeat: its out.stdout, whatever else its directory holds *)
+Lemma path_to_stdout_plain fs r :
+  s_repeat r = false -> path_to_stdout fs r = Some (path_join (s_loc r) "out.stdout").
+Proof. intros H. unfold path_to_stdout. rewrite H. reflexivity. Qed.
+
+(* max over integers *)
+Lemma fold_max_spec : forall l a,
+  (In (fold_left N.max l a) (a :: l)) /\ (forall i, In i (a :: l) -> (i <= fold_left N.max l a)%N).
+Proof.
+  induction l as [|b l IH]; intros a; cbn [fold_left].
+  - split; [left; reflexivity|]. intros i [E|[]]. subst i. apply N.le_refl.
+  - destruct (IH (N.max a b)) as [I M]. split.
+    + destruct I as [E|I].
+      * rewrite <- E. destruct (N.max_spec a b) as [[_ ->]|[_ ->]]; [right; left|left]; reflexivity.
+      * right. right. exact I.
+    + intros i [E|[E|I']].
+      * subst i. eapply N.le_trans; [apply (N.le_max_l a b)|]. apply M. left. reflexivity.
+      * subst i. eapply N.le_trans; [apply (N.le_max_r a b)|]. apply M. left. reflexivity.
+      * apply M. right. exact I'.
+Qed.
+
+Lemma max_index_spec l m :
+  max_index l = Some m <-> In m l /\ (forall i, In i l -> (i <= m)%N).
+Proof.
+  destruct l as [|a l]; cbn [max_index].
+  - split; [discriminate|intros [[] _]].
+  - destruct (fold_max_spec l a) as [I M]. split.
+    + intros H. injection H as <-. split; assumption.
+    + intros [I' M']. f_equal. apply N.le_antisymm; [apply M', I|apply M, I'].
+Qed.
+
+Lemma max_index_none l : max_index l = None <-> l = [].
+Proof. destruct l; cbn; split; congruence. Qed.
+
+(* a repeating producer: the archived stream whose index is the greatest as an INTEGER (the number of
+   digits plays no part), at the path rebuilt from that index; none while nothing is archived *)
+Theorem path_to_stdout_stream fs r :
+  s_repeat r = true ->
+  (stream_indices fs (streams_dir r) = [] -> path_to_stdout fs r = None) /\
+  (forall m, In m (stream_indices fs (streams_dir r)) ->
+             (forall i, In i (stream_indices fs (streams_dir r)) -> (i <= m)%N) ->
+             path_to_stdout fs r = Some (stream_path r m)).
+Proof.
+  intros H. unfold path_to_stdout. rewrite H. split.
+  - intros ->. reflexivity.
+  - intros m I M. rewrite (proj2 (max_index_spec _ m) (conj I M)).
+    reflexivity.
 Qed.
 
 (* ------------------------------------------------------------------ link with resolveArguments *)
